@@ -55,6 +55,7 @@ def shQuote (s : Str) : Str :=
 
 inductive QErr where
   | newline          -- MesonException "Ninja does not support newlines in rules"
+  | pipe             -- MesonException "Ninja cannot represent the path …: it contains "|"" (build lines only)
   deriving DecidableEq, Repr
 
 /-- `quote_re.sub(r'$\g<0>', text)` (a newline cannot be present at this point) -/
@@ -63,6 +64,7 @@ def ninjaEsc (build : Bool) (s : Str) : Str :=
 
 def ninjaQuote (build : Bool) (s : Str) : Except QErr Str :=
   if s.contains '\n' then .error .newline
+  else if build && s.contains '|' then .error .pipe
   else if s.contains ' ' || s.contains '$' || (build && s.contains ':') then .ok (ninjaEsc build s)
   else .ok s
 
@@ -335,6 +337,138 @@ def asMesonExeCmdline (r : ExeReq) : Wrapped :=
       ((match r.capture with | some c => ["--capture".toList, c] | none => []) ++
        (match r.feed with | some f => ["--feed".toList, f] | none => [])) r.cmdArgs
   else .pickled
+
+/-! ## `meson --internal exe`: the wrapper's own command line (`scripts/meson_exe.py` `run`)
+
+`buildparser()` declares `--unpickle`, `--capture`, `--feed` (one value each) next to argparse's
+`-h` and `--help`, and `run` calls `parse_known_args`: options may be abbreviated, written `--opt=value`,
+and are recognised anywhere before the first `--`; everything from the first `--` on is left alone.
+The classification below is argparse's `_parse_optional` for this parser (CPython 3.12). -/
+
+inductive ExeOpt where
+  | unpickle | capture | feed
+  deriving DecidableEq, Repr
+
+inductive ArgClass where
+  | positional                       -- pattern letter `A`
+  | unknownOpt                       -- pattern letter `O`, no action: goes to the extras
+  | opt (o : ExeOpt) (explicit : Option Str)
+  | help
+  | bad                              -- argparse calls `error()` when it gets to this word → exit status 2
+  | ambiguous                        -- "ambiguous option": found while classifying, before anything is acted on
+  deriving DecidableEq, Repr
+
+def longOpts : List (Str × Option ExeOpt) :=
+  [("--help".toList, none), ("--unpickle".toList, some .unpickle), ("--capture".toList, some .capture),
+   ("--feed".toList, some .feed)]
+
+/-- `^-\d+$|^-\d*\.\d+$` (`$` also matches before one trailing newline) -/
+def negNumberLike (s : Str) : Bool :=
+  let s := if s.getLast? = some '\n' then s.dropLast else s
+  match s with
+  | '-' :: r =>
+    (r ≠ [] && r.all isDigit) ||
+    (let a := r.takeWhile isDigit
+     match r.drop a.length with
+     | '.' :: f => f ≠ [] && f.all isDigit
+     | _ => false)
+  | _ => false
+
+def ofLong : Option ExeOpt → Option Str → ArgClass
+  | some o, e => .opt o e
+  | none, none => .help
+  | none, some _ => .bad            -- `--help=x`: "ignored explicit argument"
+
+def fallbackClass (a : Str) : ArgClass :=
+  if negNumberLike a then .positional else if a.contains ' ' then .positional else .unknownOpt
+
+def classifyArg (a : Str) : ArgClass :=
+  match a with
+  | [] => .positional
+  | c :: rest =>
+    if c ≠ '-' then .positional
+    else if a = ['-', 'h'] then .help
+    else match longOpts.find? (fun p => p.1 = a) with
+      | some p => ofLong p.2 none
+      | none =>
+        if rest = [] then .positional
+        else
+          let pre := a.takeWhile (· ≠ '=')
+          let explicit : Option Str := if a.contains '=' then some (a.drop (pre.length + 1)) else none
+          if rest.head? = some '-' then
+            -- long form: exact `--opt=value`, else unique-prefix abbreviation
+            match (if explicit.isSome then longOpts.find? (fun p => p.1 = pre) else none) with
+            | some p => ofLong p.2 explicit
+            | none =>
+              match longOpts.filter (fun p => pre.isPrefixOf p.1) with
+              | [p] => ofLong p.2 explicit
+              | [] => fallbackClass a
+              | _ => .ambiguous
+          else
+            -- single dash: `-h` with flags attached (`-hh`, `-h=h`: more `-h`s → help; anything else
+            -- is "ignored explicit argument"); every other single-dash word is unknown
+            if a.take 2 = ['-', 'h'] then
+              let e := if (a.drop 2).head? = some '=' then a.drop 3 else a.drop 2
+              if e ≠ [] && e.all (· == 'h') then .help else .bad
+            else fallbackClass a
+
+structure ExeArgs where
+  unpickle : Option Str := none
+  capture : Option Str := none
+  feed : Option Str := none
+  extras : List Str := []
+  deriving DecidableEq, Repr
+
+def ExeArgs.set (st : ExeArgs) (o : ExeOpt) (v : Str) : ExeArgs :=
+  match o with
+  | .unpickle => { st with unpickle := some v }
+  | .capture => { st with capture := some v }
+  | .feed => { st with feed := some v }
+
+inductive ExeParse where
+  | run (capture feed : Option Str) (argv : List Str)   -- `ExecutableSerialisation(cmd_args, capture=…, feed=…)`
+  | unpickle (file : Str)
+  | helpExit                                            -- `-h`: prints help, exit status 0, nothing runs
+  | usageError                                          -- `parser.error`: exit status 2, nothing runs
+  deriving DecidableEq, Repr
+
+/-- `parse_known_args` over the words before the first `--` (`fuel` = number of words) -/
+def exeScan : Nat → ExeArgs → List Str → Except ExeParse ExeArgs
+  | 0, st, _ => .ok st
+  | _, st, [] => .ok st
+  | fuel + 1, st, a :: rest =>
+    if a = ['-', '-'] then .ok { st with extras := st.extras ++ a :: rest }
+    else match classifyArg a with
+      | .positional => exeScan fuel { st with extras := st.extras ++ [a] } rest
+      | .unknownOpt => exeScan fuel { st with extras := st.extras ++ [a] } rest
+      | .help => .error .helpExit
+      | .bad => .error .usageError
+      | .ambiguous => .error .usageError
+      | .opt o (some v) => exeScan fuel (st.set o v) rest
+      | .opt o none =>
+        match rest with
+        | v :: rest' =>
+          if v ≠ ['-', '-'] && classifyArg v = .positional then exeScan fuel (st.set o v) rest'
+          else .error .usageError                          -- "expected one argument"
+        | [] => .error .usageError
+
+def nonEmpty? : Option Str → Option Str
+  | some [] => none
+  | x => x
+
+/-- `meson_exe.run(args)` up to the call of `run_exe` -/
+def mesonExeParse (args : List Str) : ExeParse :=
+  -- all words before the first `--` are classified first; an ambiguous abbreviation is reported there
+  if (args.takeWhile (· ≠ ['-', '-'])).any (fun a => classifyArg a = .ambiguous) then .usageError else
+  match exeScan args.length {} args with
+  | .error e => e
+  | .ok st =>
+    let cmd := if st.extras.head? = some ['-', '-'] then st.extras.drop 1 else st.extras
+    match nonEmpty? st.unpickle with
+    | none => if cmd = [] then .usageError else .run st.capture st.feed cmd
+    | some f =>
+      if cmd ≠ [] || (nonEmpty? st.capture).isSome || (nonEmpty? st.feed).isSome then .usageError
+      else .unpickle f
 
 /-! ## Consumer specification 1: Ninja's evaluation of a binding value
 
